@@ -27,7 +27,7 @@ std::string gen_synthetic(Rng &g) {
   std::vector<int> chosen; for (int i = 0; i < 8; i++) if ((int)g.below(100) < order[i].pct) chosen.push_back(i);
   int numa_pos = chosen.empty() ? 0 : (int)g.below(chosen.size() + 1);
   int att1 = chosen.empty() ? -1 : (int)g.below(chosen.size()), att2 = chosen.empty() ? -1 : (int)g.below(chosen.size());
-  auto mem = [&]() -> std::string { static const char *m[] = {"", "(memory=1GB)", "(memory=512MB)", "(memory=0)", "(memory=4096kB)"}; return m[g.below(5)]; };
+  auto mem = [&]() -> std::string { static const char *m[] = {"", "(memory=1GB)", "(memory=512MB)", "(memory=0)", "(memory=4096kB)", "(memory=1GB memorysidecachesize=64MB)", "(memorysidecachesize=256MB)"}; return m[g.below(g.chance(1, 4) ? 7 : 5)]; };
   for (size_t k = 0; k <= chosen.size(); k++) {
     if (numa_mode == 1 && (int)k == numa_pos) { unsigned c = 1 + (unsigned)g.below(4); if (total * c <= 64) { total *= c; lv.push_back("numa:" + std::to_string(c) + mem()); } }
     if (k == chosen.size()) break;
